@@ -1,0 +1,7 @@
+//go:build !verif
+
+package pool
+
+// Access hook used by the verification harness; a no-op in normal builds.
+
+func verifOnUse(*Message) {}
